@@ -57,6 +57,15 @@ def run(P, R, tier, cfg):
     _arithmetic(P, R)
 
 
+def _mut_borrows_of_local(fn, loc):
+    out = []
+    for bb in sorted(fn.normal_blocks()):
+        for j, st in enumerate(fn.stmts(bb)):
+            if isinstance(st, list) and len(st) > 4 and st[2] == "=" and st[4][0] == "ref" and st[4][1] == 1 and st[4][2][0] == loc:
+                out.append((bb, j, st))
+    return out
+
+
 # ---------------------------------------------------------------------------------------- a
 def _iff(P, R, L):
     fn = L.fn
@@ -90,6 +99,32 @@ def _iff(P, R, L):
         R.violate("a", "true-without-actions:%s" % fn.name, "%s: a path from a true condition reaches the next rule without running the actions" % fn.short_name, fn)
     else:
         R.hold("a", "%s: every non-error path from a true condition runs the action loop (if)" % fn.short_name, fn=fn)
+    # the actions executed are the rule's actions as stored - not a copy rewritten beforehand (a copy whose right-hand sides were
+    # evaluated before the first action ran stores values computed on the facts BEFORE the earlier assignments of the same firing)
+    for lp in L.action_loops:
+        drv = A.loop_driver(fn, lp)
+        it = drv.get("iter_sym")
+        rewritten = None
+        if it is not None:
+            for x in walk(it):
+                if x[0] == "var" and isinstance(x[1], str):
+                    for loc in fn.local_by_name(x[1]):
+                        for (bb, j, st) in _mut_borrows_of_local(fn, loc):
+                            if bb not in lp["body"] and bb in L.inner["body"]:
+                                rewritten = (x[1], st[0])
+        if rewritten:
+            R.violate("a", "actions-rewritten:%s" % fn.name,
+                      "%s runs a copy of the rule's actions (`%s`) that is mutated before the action loop starts (line %d): values computed ahead of time are not the values the right-hand expressions have when each assignment runs" % (fn.short_name, rewritten[0], rewritten[1]), fn, rewritten[1])
+        else:
+            R.hold("a", "%s: the action loop iterates the rule's stored actions (no rewritten copy)" % fn.short_name, fn=fn)
+    early = [c for c in fn.calls() if c.bb in L.inner["body"] and c.bb in fn.normal_blocks() and c.resolved in ("expression::evaluate_expression",)]
+    for cl in P.closures_of(fn):
+        early += [c for c in cl.calls() if c.resolved in ("expression::evaluate_expression",)]
+    if early:
+        R.violate("a", "rhs-evaluated-outside-execute_action:%s" % fn.name,
+                  "%s evaluates assignment expressions itself (line %d) instead of leaving it to execute_action at the moment each action runs" % (fn.short_name, early[0].line), fn, early[0].line)
+    else:
+        R.hold("a", "%s: right-hand expressions are evaluated only inside execute_action" % fn.short_name, fn=fn)
     # each action executed is the loop item, executed once per iteration
     for lp in L.action_loops:
         calls = [c for c in L.exec_calls if c.bb in lp["body"]]
@@ -459,7 +494,22 @@ def _assignment(P, R):
 
 # ---------------------------------------------------------------------------------------- f
 def _arithmetic(P, R):
-    fn = P.one("expression::evaluate_expression")
+    entry = P.one("expression::evaluate_expression")
+    # the splitting body is discovered (the function that calls find_operator), not named: a depth-carrying helper behind the
+    # public entry point is the same evaluator as long as the entry point hands its text and facts straight to it
+    callers = [f for f in P.fns.values() if any(c.resolved == "expression::find_operator" and c.bb in f.normal_blocks() for c in f.calls())]
+    if len(callers) != 1:
+        R.undecide("f", "evaluate_expression", "expected one function calling find_operator, found %s" % [f.name for f in callers], entry)
+        return
+    fn = callers[0]
+    if fn.name != entry.name:
+        rs = A.returned_syms(entry)
+        okw = len(rs) == 1 and strip(rs[0][1])[0] == "call" and strip(rs[0][1])[1] == fn.name and [strip(a)[:2] for a in strip(rs[0][1])[2][:2]] == [("param", 1), ("param", 2)] \
+            and not [b for b in entry.normal_blocks() if entry.term(b)[2] == "switch"]
+        if okw:
+            R.hold("f", "evaluate_expression hands its text and facts unchanged to %s" % fn.short_name, fn=entry)
+        else:
+            R.violate("f", "entry-wrapper", "evaluate_expression does not simply delegate (expr, facts) to %s" % fn.short_name, entry)
     finds = [c for c in fn.calls() if c.resolved == "expression::find_operator" and c.bb in fn.normal_blocks()]
     if len(finds) != 2:
         R.undecide("f", "evaluate_expression", "expected 2 find_operator calls, found %d" % len(finds), fn)
